@@ -8,6 +8,7 @@ mod c03;
 mod c04;
 mod c05;
 mod c06;
+mod c07;
 mod subj;
 mod sweep_parse;
 
@@ -31,7 +32,7 @@ pub struct PropDef {
 }
 
 fn registry() -> Vec<PropDef> {
-    vec![sweep_parse::c01(), sweep_parse::c02(), c03::def(), c04::def(), c05::def(), c06::def()]
+    vec![sweep_parse::c01(), sweep_parse::c02(), c03::def(), c04::def(), c05::def(), c06::def(), c07::def()]
 }
 
 fn find(id: &str) -> PropDef {
